@@ -4,13 +4,15 @@
 
    Fragment proved here ([frag], [class_frag], [canon]): Number/Integer/Float/String/Boolean with any
    constraints, Enum over literals, Enum over an enum class by name and by value (members of falsy value included),
-   Array/Deque of the fragment, Map from plain scalars to the fragment, nested structures to any depth,
+   Array/Deque/Set of the fragment, Tuple (positional or homogeneous) of plain scalars, Map from plain scalars to
+   the fragment, nested structures to any depth,
    AnyOf/Optional over ARBITRARY options holding a value of an option of the fragment that distinguishes the
    options (every earlier option rejects the value on the way out and its document on the way in, with whatever
    exception), classes with and without _ignore_none / _additional_properties / defaults / __validate__ hooks,
    compact single-field wrappers; instances whose attributes are declared fields listed in declaration order
    (instance.__dict__ order is not observable).
-   Outside [frag] (Set, Tuple, positional items, Anything, DecimalNumber, date/time fields) the executable model
+   Outside [frag] (ImmutableSet, Tuple of non-scalars, positional Array items, Anything, DecimalNumber, date/time
+   fields) the executable model
    and/or the differential on the implementation apply, and the full statement is in fact FALSE there
    (C05_refuted_required_none, and the defects listed in known_findings.json). *)
 From Coq Require Import ZArith NArith String List Bool.
@@ -158,6 +160,8 @@ Definition cls_Outer : classdef :=
                   fdecl_ "c" colorv None;
                   fdecl_ "p" priov None;
                   fdecl_ "t" tup_or_arr None;
+                  fdecl_ "st" (FSet false (Some int_) no_sizec) None;
+                  fdecl_ "tp" (FTuple [int_; FString no_strc] false) None;
                   fdecl_ "b" FBoolean (Some (PBool false))];
      c_required := [s2p "n"; s2p "c"]; c_additional := true; c_ignore_none := false; c_immutable := false;
      c_hook := HookNeverNone (s2p "xs") |}.
@@ -173,6 +177,8 @@ Definition ex_x : pyval :=
       (s2p "c", PEnum (s2p "ColorV") (s2p "BLUE") (PStr (s2p "b")));
       (s2p "p", PEnum (s2p "PrioV") (s2p "NONE") (PNum (NInt 0)));
       (s2p "t", PList [PNum (NInt 0)]);
+      (s2p "st", PSet false [PNum (NInt 0); PNum (NInt 1)]);
+      (s2p "tp", PTuple [PNum (NInt 0); PStr []]);
       (s2p "b", PBool false) ].
 Definition ex_w : pyval := PStruct (s2p "Wrap") [(s2p "p", PEnum (s2p "PrioV") (s2p "NONE") (PNum (NInt 0)))].
 
@@ -185,6 +191,8 @@ Example C05_nonvacuous :
                 (PStr (s2p "c"), PStr (s2p "b"));
                 (PStr (s2p "p"), PNum (NInt 0));
                 (PStr (s2p "t"), PList [PNum (NInt 0)]);
+                (PStr (s2p "st"), PList [PNum (NInt 0); PNum (NInt 1)]);
+                (PStr (s2p "tp"), PList [PNum (NInt 0); PStr []]);
                 (PStr (s2p "b"), PBool false) ]) /\
   (forall j, serialize (fun _ _ => true) ex_env ex_ens 2 false ex_x = Ok j ->
              deserialize (fun _ _ => true) ex_env ex_ens ex_fl 2 None (s2p "Outer") j = Ok ex_x) /\
@@ -229,6 +237,15 @@ Proof.
         intros j Hj. vm_compute in Hj. inversion Hj; subst j. cbn [firstn]. apply Forall_cons; [|apply Forall_nil].
         intro ku. exists IndexError. split; [destruct ku; vm_compute; reflexivity | reflexivity].
       * cbn [firstn]. apply Forall_cons; [|apply Forall_nil]. exists TypeError. split; vm_compute; reflexivity.
+    + (* Set[Integer] holding {0, 1} *)
+      eexists. split; [reflexivity|]. split; [|reflexivity].
+      cbn [wfv fd_field fdecl_ snd int_]. exists [PNum (NInt 0); PNum (NInt 1)]. split; [reflexivity|].
+      split; [|split; vm_compute; reflexivity].
+      repeat constructor; try (vm_compute; reflexivity); discriminate.
+    + (* Tuple[Integer, String] holding (0, "") *)
+      eexists. split; [reflexivity|]. split; [|reflexivity].
+      cbn [wfv fd_field fdecl_ snd int_]. exists [PNum (NInt 0); PStr []]. split; [reflexivity|].
+      cbn [tuple_wf]. unfold wfv_plain. repeat split; try (vm_compute; reflexivity); try discriminate. constructor.
     + eexists. split; [reflexivity|]. split; [|reflexivity].
       cbn [wfv fd_field fdecl_ snd]. repeat split; try (vm_compute; reflexivity); discriminate.
   - vm_compute. reflexivity.
